@@ -83,11 +83,58 @@ class _Round:
         self.ctx_other: Any = None  # a second assembling session (other msg)
 
 
+def _bip373_psbt(ctx: Ctx, pks: list[bytes], style: int) -> tuple[Any, bytes]:
+    """A one-input PSBT spending a p2tr output whose key is the MuSig2 aggregate
+    of pks (style 0: the output key itself; 1: the internal key, no tree)."""
+    from btclib.psbt import musig2 as pm  # noqa: PLC0415
+    from btclib.psbt.psbt import Psbt  # noqa: PLC0415
+    from btclib.script import taproot  # noqa: PLC0415
+    from btclib.tx.out_point import OutPoint  # noqa: PLC0415
+    from btclib.tx.tx import Tx  # noqa: PLC0415
+    from btclib.tx.tx_in import TxIn  # noqa: PLC0415
+    from btclib.tx.tx_out import TxOut  # noqa: PLC0415
+
+    tx = Tx(2, 0, [TxIn(OutPoint(b"\x22" * 32, 1), b"", 0xFFFFFFFD)], [TxOut(9000, b"\x00\x14" + bytes(20))])
+    psbt = Psbt.from_tx(tx)
+    agg = pm.add_participant_pub_keys(psbt.inputs[0], pks)
+    if style == 0:
+        out_key = agg[1:]
+    else:
+        psbt.inputs[0].taproot_internal_key = agg[1:]
+        out_key = taproot.output_pubkey(agg)[0]
+    psbt.inputs[0].witness_utxo = TxOut(10000, b"\x51\x20" + out_key)
+    return psbt, agg
+
+
+class _PsbtRound:
+    def __init__(self) -> None:
+        self.prv: list[int] = []
+        self.sec: list[bytearray] = []
+        self.signed: list[int] = []
+        self.psbt: Any = None
+        self.agg = b""
+
+
 def _nonce_history(ctx: Ctx, rng: SimRng) -> None:
     from btclib.ecc import musig2  # noqa: PLC0415
+    from btclib.psbt import musig2 as pm  # noqa: PLC0415
 
     ch = ctx.ch
     rounds: list[_Round] = []
+    prounds: list[_PsbtRound] = []
+
+    def new_psbt_round() -> None:
+        pr = _PsbtRound()
+        n = 1 + ch.draw(3, "p.signers")
+        pr.prv = [gk.scalar(ch, "p.prv") for _ in range(n)]
+        pks = [musig2.individual_pub_key(q) for q in pr.prv]
+        with ctx.must_succeed("C16", "bip373-session-builds"):
+            pr.psbt, pr.agg = _bip373_psbt(ctx, pks, ch.draw(2, "p.style"))
+            for q in pr.prv:
+                pr.sec.append(pm.nonce_gen(pr.psbt, 0, q, pr.agg))
+                pr.signed.append(0)
+        prounds.append(pr)
+        ctx.log("psbt-round", f"n={n}")
 
     def new_round() -> None:
         r = _Round()
@@ -116,6 +163,11 @@ def _nonce_history(ctx: Ctx, rng: SimRng) -> None:
         ctx.log("round", f"n={n}", f"tweaks={len(tweaks)}", f"msg={len(msg)}")
 
     def invariant() -> None:
+        for ri, pr in enumerate(prounds):
+            for i, cnt in enumerate(pr.signed):
+                ctx.check(P, "nonce-signs-at-most-once", cnt <= 1, f"psbt round {ri} signer {i}: {cnt} partial signatures from one secnonce", site="psbt.musig2.partial_sign")
+                if cnt >= 1:
+                    ctx.check(P, "nonce-zeroed-after-sign", bytes(pr.sec[i][:64]) == bytes(64), f"psbt round {ri} signer {i}: secnonce not zeroed", site="psbt.musig2.partial_sign")
         for ri, r in enumerate(rounds):
             for i, cnt in enumerate(r.signed):
                 ctx.check(P, "nonce-signs-at-most-once", cnt <= 1, f"round {ri} signer {i}: {cnt} signatures from one secnonce")
@@ -126,12 +178,32 @@ def _nonce_history(ctx: Ctx, rng: SimRng) -> None:
     n_ops = 5 + ch.draw(30, "nops")
     for _ in range(n_ops):
         op = ch.weighted(
-            [("sign", 8), ("sign-other-session", 4), ("sign-bad-session", 3), ("sign-other-key", 2), ("new-round", 1), ("det-sign", 1), ("verify", 2), ("perturb", 3)],
+            [("sign", 8), ("sign-other-session", 4), ("sign-bad-session", 3), ("sign-other-key", 2), ("new-round", 1), ("det-sign", 1), ("verify", 2), ("perturb", 3), ("psbt-sign", 5), ("psbt-cross-sign", 2)],
             "op",
         )
         if op == "new-round":
             if len(rounds) < 3:
                 new_round()
+            continue
+        if op in ("psbt-sign", "psbt-cross-sign"):
+            if not prounds or (len(prounds) < 2 and ch.draw(4, "p.new") == 0):
+                new_psbt_round()
+            pr = prounds[ch.draw(len(prounds), "p.round")]
+            i = ch.draw(len(pr.prv), "p.signer")
+            try:
+                if op == "psbt-sign":
+                    sig = pm.partial_sign(pr.psbt, 0, pr.sec[i], pr.prv[i], pr.agg)
+                else:
+                    # the same secnonce handed to the free function, on the session the psbt describes
+                    sig = musig2.sign(pr.sec[i], pr.prv[i], pm.session_context(pr.psbt, 0, pr.agg).context)
+            except LIB_ERRORS as e:
+                ctx.log(op, i, "refused", type(e).__name__)
+            else:
+                pr.signed[i] += 1
+                ctx.log(op, i, "signed", sig[:6])
+                ctx.probe("psbt-signed")
+            ctx.state(f"pnonce:{min(pr.signed[i], 2)}:{op}")
+            invariant()
             continue
         if op == "perturb":
             _perturb(ctx)
